@@ -308,6 +308,60 @@ Definition hash_perform (ps : list part) (pos len : N) : hres :=
   if chunk_size ps <? u32 (pos + l) then HErr
   else hash_feed (S (length ps)) ps pos l.
 
+(* PeerConnectionBase::down_chunk / up_chunk:
+     ChunkIterator itr(chunk, first, last);
+     do { data = itr.data(); n = stream_io(data.first, data.second); total += n; }
+     while (n != 0 && itr.forward(n));
+   The stream moves n_i = min(step_i, data.second) bytes at iteration i (short reads/writes are the
+   schedule; an exhausted schedule is a 0-byte transfer). Result: the (part, offset, n) segments
+   moved, the window sizes data() offered, XErr = internal_error (Chunk::at_memory). *)
+Fixpoint fwd_suf (suf : list part) (x : N) : option (list part) :=
+  match suf with
+  | [] => None
+  | p :: r => if x <? p_pos p + p_size p then Some suf else fwd_suf r x
+  end.
+
+Inductive xres := XErr | XOk (sg : list (part * N * N)) (wins : list N).
+
+Definition xcons (seg : part * N * N) (win : N) (r : xres) : xres :=
+  match r with XOk sg w => XOk (seg :: sg) (win :: w) | e => e end.
+
+Fixpoint xfer_loop (steps : list N) (suf : list part) (first last : N) : xres :=
+  match suf with
+  | [] => XErr                                            (* at_memory: part == end() *)
+  | p :: _ =>
+      if negb ((p_pos p <=? first) && (first <? p_pos p + p_size p)) then XErr   (* out of range *)
+      else
+        let o := first - p_pos p in
+        let k := N.min (p_size p - o) (u32 (last + two32 - first)) in
+        match steps with
+        | [] => XOk [] [k]                                 (* the stream gives 0 bytes *)
+        | s :: steps' =>
+            let n := N.min s k in
+            if n =? 0 then XOk [] [k]
+            else
+              let first' := u32 (first + n) in
+              if last <=? first' then XOk [(p, o, n)] [k]   (* forward: m_first >= m_last *)
+              else match fwd_suf suf first' with
+                   | None => XOk [(p, o, n)] [k]            (* forward ran off the parts *)
+                   | Some suf' => xcons (p, o, n) k (xfer_loop steps' suf' first' last)
+                   end
+        end
+  end.
+
+(* ChunkIterator ctor = Chunk::at_position(first) *)
+Definition xfer (ps : list part) (first last : N) (steps : list N) : xres :=
+  if chunk_size ps <=? first then XErr
+  else match at_position ps first with
+       | None => XErr
+       | Some suf => xfer_loop steps suf first last
+       end.
+
+Definition segs_total (sg : list (part * N * N)) : N := fold_right (fun x a => snd x + a) 0 sg.
+
+(* Chunk::preload(position, length, useAdvise): only its argument check is observable *)
+Definition preload_ok (ps : list part) (pos : N) : bool := pos <? chunk_size ps.
+
 (* common prologue of to_buffer / from_buffer / compare_buffer:
    None = internal_error, Some [] = length 0 (return true at once), Some segs otherwise *)
 Definition buffer_segs (ps : list part) (pos n : N) : option (list (part * N * N)) :=
@@ -417,7 +471,9 @@ Inductive op :=
 | OpSetBit (idx : N)             (* Bitfield::set(idx) only (resume / hash-check bookkeeping) *)
 | OpUpdate                       (* FileList::update_completed *)
 | OpPread (i : nat) (off len : N)   (* plain pread of file i *)
-| OpHash (idx : N) (steps : list N). (* HashChunk over piece idx: perform(l) per step, then perform(remaining) *)
+| OpHash (idx : N) (steps : list N)  (* HashChunk over piece idx: perform(l) per step, then perform(remaining) *)
+| OpXfer (idx : N) (w : bool) (first last : N) (steps : list N) (data : bytes).
+    (* preload(first, last-first); the down_chunk (w) / up_chunk loop over [first,last) with short transfers *)
 
 Inductive wres := WSkip | WErr | WOk.
 
@@ -433,7 +489,9 @@ Inductive out :=
 | OutUpd (ok : bool)
 | OutSet (ok : bool)
 | OutPread (size : option N) (bs : bytes)     (* None = no such file (padding / index) *)
-| OutHash (fed : option bytes) (pos : N).     (* bytes handed to SHA-1 in order; None = internal_error *)
+| OutHash (fed : option bytes) (pos : N)      (* bytes handed to SHA-1 in order; None = internal_error *)
+| OutXfer (pre : bool) (r : option (list N * N * bytes)).
+    (* preload ok; windows offered, bytes moved, bytes sent (up) ; None = internal_error *)
 
 (* create_chunk; from_buffer(data, pos) when writable; to_buffer(rpos, rn);
    compare_buffer(data, pos); the chunk is then synced and destroyed *)
@@ -537,6 +595,23 @@ Definition step (c : cfg) (s : state) (o : op) : state * out :=
       | COk st ps =>
           let r := hash_steps ps st (zeros (N.to_nat (chunk_size ps))) 0 steps in
           (mkState st (s_done s) (s_fcomp s), OutHash (fst r) (snd r))
+      end
+  | OpXfer idx w first last steps data =>
+      match create_chunk c (s_store s) (idx * c_cs c) (chunk_index_size c idx) w with
+      | CErr => (s, OutErr)
+      | CNull st => (mkState st (s_done s) (s_fcomp s), OutNull)
+      | COk st ps =>
+          let cm0 := zeros (N.to_nat (chunk_size ps)) in
+          let pre := preload_ok ps first in
+          match xfer ps first last steps with
+          | XErr => (mkState st (s_done s) (s_fcomp s), OutXfer pre None)
+          | XOk sg wins =>
+              if w then
+                let r := write_segs sg data st cm0 in
+                (mkState (fst r) (s_done s) (s_fcomp s), OutXfer pre (Some (wins, segs_total sg, [])))
+              else
+                (mkState st (s_done s) (s_fcomp s), OutXfer pre (Some (wins, segs_total sg, read_segs sg st cm0)))
+          end
       end
   end.
 
